@@ -206,7 +206,14 @@ func genCase(r *kit.Rand, idx int, tier string) []string {
 				}
 			}
 			doStart(id)
-		case k < 90:
+		case k < 80:
+			// a start that fails after the fork was made (snapshot cannot be loaded), of an id that is not executing
+			id := kit.Pick(r, genIDs)
+			if running[id] == nil {
+				d := genTask(r, id, names, focus)
+				ops = append(ops, "startfail"+startLine(d)[len("start"):])
+			}
+		case k < 91:
 			id := kit.Pick(r, ids)
 			ops = append(ops, "stop "+kit.Esc(id)) // possibly not running: no-op
 			delete(running, id)
